@@ -154,7 +154,7 @@ namespace Desync
 size; any interleaving of internal steps with the environment's calls, closure ends, returns and
 spurious wake-ups. -/
 theorem holderInv_reachable {s : State} (hr : Reachable s) : HolderInv s := by
-  refine Reachable.induction (P := HolderInv) holderInv_init ?_ s hr
+  refine Reachable.induction (P := HolderInv) holderInv_init holderInv_initP ?_ s hr
   intro s l s' h hstep
   cases l with
   | act a =>
